@@ -82,4 +82,34 @@ example : (Treemap.insert (Treemap.insert [] 5).1 8589934599).1 = (Treemap.inser
 example : (Bitmap.insert (Bitmap.insert [] 5).1 70000).1 = (Bitmap.remove (Bitmap.insert (Bitmap.insert (Bitmap.insert [] 70000).1 9).1 5).1 9).1 := by
   decide +kernel
 
+/-! ### `==` as the driver executes it (`Bitmap.eqMirror`, `Mirror32.lean`): `Store::eq` compares two bitsets through
+    their cached `len` and the *zipped value iterators* (store/mod.rs:524-527), not word by word; equal to `Bitmap.eq`
+    on stores satisfying their invariant (`Bitmap.eq_mirror_eq`; `Bitmap.WF` provides it). -/
+
+theorem C04_eqMirror_iff_elems (a b : Bitmap) (ha : a.WF) (hb : b.WF) :
+    Bitmap.eqMirror a b = true ↔ Bitmap.elems a = Bitmap.elems b := by
+  rw [Bitmap.eq_mirror_eq a b ha.storeInv hb.storeInv]; exact C04_eq_iff_elems a b ha hb
+
+/-- producer row `full()` (inherent.rs:35): well-formed -/
+theorem C04_producer_full : Bitmap.WF Bitmap.full := Bitmap.full_wf
+
+/-- non-vacuity: a well-formed two-chunk value with a bitset chunk; `eqMirror` evaluated through the equality
+    theorem (a kernel evaluation of two full `BitmapIter` drains costs ≈ 1 min on the list model), and directly on
+    array chunks -/
+def exBits : BStore := { len := 4160, bits := List.replicate 65 wMax ++ List.replicate 959 0 }
+def exA : Bitmap := [⟨0, .array [1, 5, 65535]⟩, ⟨7, .bitmap exBits⟩]
+
+example : exA.WF ∧ Bitmap.eqMirror exA exA = true ∧
+    Bitmap.eqMirror [⟨0, .array [1, 5]⟩, ⟨3, .array [9]⟩] [⟨0, .array [1, 5]⟩, ⟨3, .array [8]⟩] = false := by
+  have hwf : exA.WF := by
+    refine ⟨by decide, ?_⟩
+    intro c hc
+    simp only [exA, List.mem_cons, List.not_mem_nil, or_false] at hc
+    rcases hc with rfl | rfl
+    · exact ⟨by decide, ⟨⟨by simp [Sorted], by decide⟩, by decide, by decide⟩⟩
+    · exact ⟨by decide, ⟨by decide +kernel, by decide +kernel, by decide +kernel⟩, by decide⟩
+  refine ⟨hwf, ?_, by decide +kernel⟩
+  rw [Bitmap.eq_mirror_eq exA exA hwf.storeInv hwf.storeInv]
+  decide +kernel
+
 end Roaring.C04
